@@ -1,7 +1,10 @@
 """K7: heap.Heap._roundup (pykernel) and, by a bespoke fail-closed generator (G_heap), the
 arithmetic that heap.py applies around it: the size normalisation, the assert, the split
 point and split test of `malloc`, the arena length and the doubling in `_malloc`, the
-class constant `_alignment`, and which bisect function `_malloc` searches with."""
+class constant `_alignment`, which bisect function `_malloc` searches with, and the locking
+discipline of `free`: which kind of lock `__init__` creates (re-entrant or not) and that
+`free` takes it with a non-blocking acquire whose failure branch only appends to the
+pending list."""
 import ast
 import os
 
@@ -137,6 +140,36 @@ def gen_heap(repo):
     if ast.unparse(first_if.test) != 'i == len(self._lengths)':
         raise TranslateError('Heap._malloc: new-arena test is `%s`' % ast.unparse(first_if.test))
 
+    # ---- the lock: its kind, and how free() takes it
+    ini = pykernel.find_func(tree, 'Heap.__init__')
+    lk = _one(_walk_no_nested(ini), lambda s: isinstance(s, ast.Assign) and len(s.targets) == 1
+              and ast.unparse(s.targets[0]) == 'self._lock', 'assignment to self._lock in Heap.__init__')
+    lock_src = ast.unparse(lk.value)
+    lock_kinds = {'threading.Lock()': 'false', 'threading.RLock()': 'true'}
+    if lock_src not in lock_kinds:
+        raise TranslateError('Heap.__init__: self._lock is `%s`' % lock_src)
+    others = [ast.unparse(s) for fn in cls.body if isinstance(fn, ast.FunctionDef) and fn.name != '__init__'
+              for s in _walk_no_nested(fn)
+              if isinstance(s, (ast.Assign, ast.AugAssign, ast.AnnAssign)) and 'self._lock' in
+              [ast.unparse(t) for t in (s.targets if isinstance(s, ast.Assign) else [s.target])]]
+    if others:
+        raise TranslateError('Heap: self._lock is reassigned outside __init__: %s' % others[0])
+    fr = pykernel.find_func(tree, 'Heap.free')
+    if [a.arg for a in fr.args.args] != ['self', 'block']:
+        raise TranslateError('Heap.free signature changed')
+    acq = _one(list(fr.body), lambda s: isinstance(s, ast.If) and '_lock' in ast.unparse(s.test),
+               'top-level `if` on self._lock in Heap.free')
+    acq_src = ast.unparse(acq.test)
+    trylocks = {'not self._lock.acquire(False)': 'true', 'not self._lock.acquire(blocking=False)': 'true',
+                'not self._lock.acquire(0)': 'true',
+                'not self._lock.acquire()': 'false', 'not self._lock.acquire(True)': 'false',
+                'not self._lock.acquire(blocking=True)': 'false', 'not self._lock.acquire(1)': 'false'}
+    if acq_src not in trylocks:
+        raise TranslateError('Heap.free: the lock is taken with `%s`' % acq_src)
+    if [ast.unparse(x) for x in acq.body] != ['self._pending_free_blocks.append(block)']:
+        raise TranslateError('Heap.free: the lock-taken branch is no longer '
+                             '`self._pending_free_blocks.append(block)`')
+
     return '''(* GENERATED by translate/kernels/heap.py (G_heap) from billiard/heap.py -- do not edit *)
 From Coq Require Import ZArith List Bool.
 From BV Require Import Lib.PyVal Gen.K_heap.
@@ -161,7 +194,12 @@ Definition arena_length (self_size v_size pagesize : pv) : pv := %(arena_length)
 Definition next_size (self_size : pv) : pv := %(next_size)s.
 (* Heap._malloc searches the sorted free lengths with bisect_left *)
 Definition search_is_bisect_left : bool := %(bl)s.
-''' % dict(alignment=alignment, malloc_assert=malloc_assert, malloc_size=malloc_size,
+(* Heap.__init__: `%(src_lock)s` -- can the thread that holds the lock acquire it again? *)
+Definition lock_reentrant : bool := %(lock_re)s.
+(* Heap.free: `if %(src_acq)s: self._pending_free_blocks.append(block)` -- non-blocking acquire? *)
+Definition free_trylock : bool := %(trylock)s.
+''' % dict(src_lock=ast.unparse(lk), lock_re=lock_kinds[lock_src], src_acq=acq_src, trylock=trylocks[acq_src],
+           alignment=alignment, malloc_assert=malloc_assert, malloc_size=malloc_size,
            new_stop=new_stop, split_test=split_test, arena_length=arena_length,
            next_size=next_size, bl=known[search],
            src_assert=ast.unparse(asr), src_size=ast.unparse(size_as),
